@@ -168,26 +168,23 @@ def mkWorking (n d : Bytes) : Working := { name := n, desc := d, letters := #[] 
 theorem header_headerLine {n d : Bytes} (hn : nameOK n = true) (hd : descOK d = true) :
     header {} (headerLine 62 n d) = .ok (mkWorking n d, none) := by
   rw [nameOK_iff] at hn
-  have hvis : ∀ b ∈ (62 : UInt8) :: n, visible b = true := by
-    intro b hb
-    rcases List.mem_cons.mp hb with rfl | hb
-    · decide
-    · exact hn b hb
-  unfold header headerLine
+  have hcut : sliceFrom (headerLine 62 n d) ([62] : Bytes).length
+      = .ok (n ++ (if d.isEmpty then [] else 32 :: d)) := by
+    simp [sliceFrom, headerLine]
+  unfold header
+  simp only [hcut, bind, Except.bind]
   by_cases hde : d.isEmpty = true
   · have hd0 : d = [] := by simpa using hde
     subst hd0
     simp only [List.isEmpty_nil, if_true, List.append_nil]
-    rw [indexAnySpTab_visible_nil _ hvis]
-    simp [sliceFrom, mkWorking, bind, Except.bind, pure, Except.pure]
+    rw [indexAnySpTab_visible_nil _ hn]
+    simp [mkWorking, pure, Except.pure]
   · simp only [hde, Bool.false_eq_true, if_false]
-    have e : indexAnySpTab ((62 :: n) ++ 32 :: d) = some (n.length + 1) := by
-      rw [indexAnySpTab_visible _ hvis]
+    have e : indexAnySpTab (n ++ 32 :: d) = some n.length := by
+      rw [indexAnySpTab_visible _ hn]
       simp [indexAnySpTab, List.findIdx?_cons]
-    rw [show (62 : UInt8) :: n ++ 32 :: d = (62 :: n) ++ 32 :: d by simp] at *
     rw [e]
-    simp [slice, sliceFrom, mkWorking]
-    rfl
+    simp [slice, sliceFrom, mkWorking, pure, Except.pure]
 
 /-! ### the reader-level view of a laid-out file -/
 
@@ -559,30 +556,34 @@ theorem writeAll_spec (w : Nat) (hw : w ≠ 0) (sink : Sink) (recs : List Rec) :
 
 /-! ### totality on arbitrary input -/
 
-theorem header_total (line : Bytes) (h : hasPrefix line [62] = true) : ∃ v, header {} line = .ok v := by
-  cases line with
-  | nil => simp [hasPrefix, List.isPrefixOf] at h
-  | cons a t =>
-    have ha : a = 62 := by simp [hasPrefix, List.isPrefixOf] at h; exact h.symm
-    subst ha
-    unfold header
-    have e : indexAnySpTab (62 :: t) = (indexAnySpTab t).map (· + 1) := by
-      simp [indexAnySpTab, List.findIdx?_cons]
-    rw [e]
-    cases hk : indexAnySpTab t with
-    | none => simp [sliceFrom, bind, Except.bind, pure, Except.pure]
-    | some k =>
-      have hlt : k < t.length := by
-        simp only [indexAnySpTab] at hk
-        obtain ⟨hlt, _⟩ := List.findIdx?_eq_some_iff_getElem.mp hk
-        exact hlt
-      simp only [Option.map_some]
-      have h1 : k ≤ t.length := by omega
-      have h2 : k + 1 ≤ t.length := by omega
-      simp [slice, sliceFrom, h1, h2, bind, Except.bind, pure, Except.pure]
+theorem hasPrefix_length {line p : Bytes} (h : hasPrefix line p = true) : p.length ≤ line.length := by
+  simp only [hasPrefix] at h
+  exact (List.isPrefixOf_iff_prefix.mp h).length_le
 
-/-- `read` never panics (default prefixes) -/
-theorem read_total (lines : List Bytes) : ∀ st : St, ∃ v, read {} st lines = .ok v := by
+/-- after the fix of `header` (the separator is looked for after the prefix) the header parser
+    is total for every `IDPrefix` -/
+theorem header_total_cfg (cfg : Cfg) (line : Bytes) (h : hasPrefix line cfg.idPrefix = true) :
+    ∃ v, header cfg line = .ok v := by
+  have hle := hasPrefix_length h
+  unfold header
+  simp only [sliceFrom, hle, if_true, bind, Except.bind]
+  cases hk : indexAnySpTab (line.drop cfg.idPrefix.length) with
+  | none => simp [pure, Except.pure]
+  | some k =>
+    have hlt : k < (line.drop cfg.idPrefix.length).length := by
+      simp only [indexAnySpTab] at hk
+      obtain ⟨hlt, _⟩ := List.findIdx?_eq_some_iff_getElem.mp hk
+      exact hlt
+    simp only [List.length_drop] at hlt
+    have h1 : k ≤ line.length - cfg.idPrefix.length := by omega
+    have h2 : k + 1 ≤ line.length - cfg.idPrefix.length := by omega
+    simp [slice, h1, h2, pure, Except.pure]
+
+theorem header_total (line : Bytes) (h : hasPrefix line [62] = true) : ∃ v, header {} line = .ok v :=
+  header_total_cfg {} line h
+
+/-- `read` never panics, whatever the prefixes -/
+theorem read_total_cfg (cfg : Cfg) (lines : List Bytes) : ∀ st : St, ∃ v, read cfg st lines = .ok v := by
   induction lines with
   | nil =>
     intro st
@@ -595,21 +596,21 @@ theorem read_total (lines : List Bytes) : ∀ st : St, ∃ v, read {} st lines =
     by_cases h0 : ((trimSpace raw).length == 0) = true
     · simp only [h0, if_true]; exact ih st
     · simp only [h0]
-      by_cases h1 : hasPrefix (trimSpace raw) ({} : Cfg).idPrefix = true
+      by_cases h1 : hasPrefix (trimSpace raw) cfg.idPrefix = true
       · simp only [h1, if_true]
-        obtain ⟨⟨w, e⟩, hv⟩ := header_total _ h1
+        obtain ⟨⟨w, e⟩, hv⟩ := header_total_cfg cfg _ h1
         cases st.working with
         | none => simp only [hv, bind, Except.bind]; exact ih _
         | some w0 => simp [hv, bind, Except.bind, pure, Except.pure]
       · simp only [h1]
-        have h2 : hasPrefix (trimSpace raw) ({} : Cfg).seqPrefix = true := by simp [hasPrefix]
-        simp only [h2, if_true]
-        cases st.working with
-        | none => simp [pure, Except.pure]
-        | some w0 =>
-          simp only [sliceFrom, bind, Except.bind]
-          simp only [List.length_nil, Nat.zero_le, if_true]
-          exact ih _
+        by_cases h2 : hasPrefix (trimSpace raw) cfg.seqPrefix = true
+        · simp only [h2, if_true]
+          cases st.working with
+          | none => simp [pure, Except.pure]
+          | some w0 =>
+            simp only [sliceFrom, bind, Except.bind, hasPrefix_length h2, if_true]
+            exact ih _
+        · simp [h2, pure, Except.pure]
 
 /-- what is left to do: the lines not yet read, plus the record that is still to be returned -/
 def measure (st : St) (lines : List Bytes) : Nat := lines.length + (if st.working.isSome then 1 else 0)
@@ -619,8 +620,8 @@ theorem deferred_working (st : St) : (deferred st).working = st.working := by
 
 /-- every call that does not return `io.EOF` consumes a line or hands out the pending record;
     and every call returns a sequence or an error -/
-theorem read_progress (lines : List Bytes) : ∀ (st st' : St) (ret : Ret) (rest : List Bytes),
-    read {} st lines = .ok (ret, st', rest) →
+theorem read_progress_cfg (cfg : Cfg) (lines : List Bytes) : ∀ (st st' : St) (ret : Ret) (rest : List Bytes),
+    read cfg st lines = .ok (ret, st', rest) →
       (ret.s.isSome ∨ ret.e.isSome) ∧ (ret.e ≠ some .eof → measure st' rest < measure st lines) := by
   induction lines with
   | nil =>
@@ -644,9 +645,9 @@ theorem read_progress (lines : List Bytes) : ∀ (st st' : St) (ret : Ret) (rest
       obtain ⟨a, b⟩ := ih _ _ _ _ h
       exact ⟨a, fun hne => by have := b hne; simp [measure] at this ⊢; omega⟩
     · simp only [h0] at h
-      by_cases h1 : hasPrefix (trimSpace raw) ({} : Cfg).idPrefix = true
+      by_cases h1 : hasPrefix (trimSpace raw) cfg.idPrefix = true
       · simp only [h1, if_true] at h
-        obtain ⟨⟨w, e⟩, hv⟩ := header_total _ h1
+        obtain ⟨⟨w, e⟩, hv⟩ := header_total_cfg cfg _ h1
         cases hw : st.working with
         | none =>
           simp only [hw, hv, bind, Except.bind] at h
@@ -657,17 +658,20 @@ theorem read_progress (lines : List Bytes) : ∀ (st st' : St) (ret : Ret) (rest
           obtain ⟨rfl, rfl, rfl⟩ := h
           simp [measure, deferred_working, hw]
       · simp only [h1] at h
-        have h2 : hasPrefix (trimSpace raw) ({} : Cfg).seqPrefix = true := by simp [hasPrefix]
-        simp only [h2, if_true] at h
-        cases hw : st.working with
-        | none =>
-          simp [hw, pure, Except.pure] at h
+        by_cases h2 : hasPrefix (trimSpace raw) cfg.seqPrefix = true
+        · simp only [h2, if_true] at h
+          cases hw : st.working with
+          | none =>
+            simp [hw, pure, Except.pure] at h
+            obtain ⟨rfl, rfl, rfl⟩ := h
+            simp [measure, deferred_working, hw]
+          | some w0 =>
+            simp only [hw, sliceFrom, bind, Except.bind, hasPrefix_length h2, if_true] at h
+            obtain ⟨a, b⟩ := ih _ _ _ _ h
+            exact ⟨a, fun hne => by have := b hne; simp [measure, hw] at this ⊢; omega⟩
+        · simp [h2, pure, Except.pure] at h
           obtain ⟨rfl, rfl, rfl⟩ := h
-          simp [measure, deferred_working, hw]
-        | some w0 =>
-          simp only [hw, sliceFrom, bind, Except.bind, List.length_nil, Nat.zero_le, if_true] at h
-          obtain ⟨a, b⟩ := ih _ _ _ _ h
-          exact ⟨a, fun hne => by have := b hne; simp [measure, hw] at this ⊢; omega⟩
+          simp [measure, deferred_working]
 
 theorem getLast?_cons_of_some {α : Type} (y : α) (L : List α) (x : α) (h : L.getLast? = some x) :
     (y :: L).getLast? = some x := by
@@ -677,18 +681,18 @@ theorem getLast?_cons_of_some {α : Type} (y : α) (L : List α) (x : α) (h : L
 
 /-- the call history: no panic, never out of budget, at most `fuel` calls, ends with `io.EOF`,
     every call returns a sequence or an error -/
-theorem readAllAux_total (fuel : Nat) : ∀ (st : St) (lines : List Bytes), measure st lines < fuel →
-    (∀ p, Call.panic p ∉ readAllAux {} fuel st lines) ∧
-    Call.unfinished ∉ readAllAux {} fuel st lines ∧
-    (readAllAux {} fuel st lines).length ≤ measure st lines + 1 ∧
-    (∃ r, (readAllAux {} fuel st lines).getLast? = some (Call.ret r) ∧ r.e = some .eof) ∧
-    (∀ r, Call.ret r ∈ readAllAux {} fuel st lines → r.s.isSome ∨ r.e.isSome) := by
+theorem readAllAux_total_cfg (cfg : Cfg) (fuel : Nat) : ∀ (st : St) (lines : List Bytes), measure st lines < fuel →
+    (∀ p, Call.panic p ∉ readAllAux cfg fuel st lines) ∧
+    Call.unfinished ∉ readAllAux cfg fuel st lines ∧
+    (readAllAux cfg fuel st lines).length ≤ measure st lines + 1 ∧
+    (∃ r, (readAllAux cfg fuel st lines).getLast? = some (Call.ret r) ∧ r.e = some .eof) ∧
+    (∀ r, Call.ret r ∈ readAllAux cfg fuel st lines → r.s.isSome ∨ r.e.isSome) := by
   induction fuel with
   | zero => intro st lines h; omega
   | succ f ih =>
     intro st lines hm
-    obtain ⟨⟨ret, st', rest⟩, hv⟩ := read_total lines st
-    obtain ⟨hsome, hdec⟩ := read_progress lines st st' ret rest hv
+    obtain ⟨⟨ret, st', rest⟩, hv⟩ := read_total_cfg cfg lines st
+    obtain ⟨hsome, hdec⟩ := read_progress_cfg cfg lines st st' ret rest hv
     simp only [readAllAux, hv]
     by_cases he : ret.e = some .eof
     · simp only [he, if_true]
@@ -706,6 +710,23 @@ theorem readAllAux_total (fuel : Nat) : ∀ (st : St) (lines : List Bytes), meas
         rcases hr with rfl | hr
         · exact hsome
         · exact e r hr
+
+/-- `read` never panics (default prefixes) -/
+theorem read_total (lines : List Bytes) : ∀ st : St, ∃ v, read {} st lines = .ok v :=
+  read_total_cfg {} lines
+
+theorem read_progress (lines : List Bytes) : ∀ (st st' : St) (ret : Ret) (rest : List Bytes),
+    read {} st lines = .ok (ret, st', rest) →
+      (ret.s.isSome ∨ ret.e.isSome) ∧ (ret.e ≠ some .eof → measure st' rest < measure st lines) :=
+  read_progress_cfg {} lines
+
+theorem readAllAux_total (fuel : Nat) : ∀ (st : St) (lines : List Bytes), measure st lines < fuel →
+    (∀ p, Call.panic p ∉ readAllAux {} fuel st lines) ∧
+    Call.unfinished ∉ readAllAux {} fuel st lines ∧
+    (readAllAux {} fuel st lines).length ≤ measure st lines + 1 ∧
+    (∃ r, (readAllAux {} fuel st lines).getLast? = some (Call.ret r) ∧ r.e = some .eof) ∧
+    (∀ r, Call.ret r ∈ readAllAux {} fuel st lines → r.s.isSome ∨ r.e.isSome) :=
+  readAllAux_total_cfg {} fuel
 
 /-! ### the readers see lines only through `bytes.TrimSpace` -/
 
